@@ -79,6 +79,23 @@ def _(rng, v, extra):
 	return extra["t"] >> v
 
 
+@deriv("v.to_object() >> v", "vector")
+def _(rng, v, extra):
+	# (an OBJECT-typed vector on the left of >>: the result is a table of copies, like every other stacking - not a vector whose cells are the operands themselves)
+	return v.to_object() >> v
+
+
+@deriv("w(object) >> v", "vector")
+def _(rng, v, extra):
+	return Vector([v._underlying[0] if len(v) else None, "x"][:max(len(v), 1)] * 1 + [None] * max(len(v) - 2, 0), dtype=object)[0:len(v)] >> v
+
+
+@deriv("Table([v]).to_object()", "vector")
+def _(rng, v, extra):
+	t = Table([v, v.copy()])
+	return t.to_object() if hasattr(t, "to_object") else t.copy()
+
+
 @deriv("t >> {name: v}", "vector")
 def _(rng, v, extra):
 	return extra["t"] >> {"added": v}
